@@ -41,6 +41,24 @@ CHECKS = {
     note='Trusted: ply semantics; textual identity of master regexes implies equal lexing. Outside: longer inputs; language-equivalence of textually different master patterns is reported as inconclusive, not decided.',
     technique='bounded SAT in-equivalence of LALR table sets (LR-SAT) + symbolic execution (z3 strings) of the lexer rule functions',
     engine='GX+SX'),
+ 'C04': dict(
+    level=('other', 'S: the real Lexer wrapper (auto_semi, _is_prev_token_lt, _get_update_token, _token) runs under SX on a raw-token source whose kinds are symbolic finite-domain z3 values; over all kind sequences of <= 3/4 raw items z3 decides that a semicolon is supplied iff the offending token is `}` or separated by a line terminator (also inside a multi-line comment / not a multi-line string), and that the lexer emits the virtual semicolon exactly at the first terminator after return/break/continue/throw (with <= 2 arbitrary tokens before and <= 3 layout items after). '
+                    'T (replay of the metamorphic statement): table-derived structures x every statement-terminating `;` x 13 separating layouts, judged against 7.9 evaluated on the real LALR tables (offending = prefix.token not viable).', 'DESIGN.md C04'),
+    note='Trusted: the raw-token source as a model of the regex level; the real tables as the grammar (C03). Outside: several omitted semicolons at once; longer programs. The structure/layout product of leg T is exploration, stated as such.',
+    technique='symbolic execution of the real lexer wrapper on symbolic token kinds (z3 finite domain) against a ghost oracle + table-driven metamorphic replay',
+    engine='SX+GX'),
+ 'C05': dict(
+    level=('other', 'S: relational SX check on the real Lexer._token/_get_update_token/_set_tokens: for every placement of <= 2 layout items of symbolic kind among <= 2/3 real tokens of symbolic kind, z3 decides that the DIV/REGEX face given to a following slash-initial item equals the face without the layout. '
+                    'T: ~2500 (quick: every 5th) table-derived structures with a slash token in each grammatical role (incl. nested parentheses and headers) x 9 layouts: parse(text) must build the tree the real LALR tables + actions build from the token string in which DIV/REGEX are given.', 'DESIGN.md C05'),
+    note='Trusted: raw-token source models the regex level; token-level reference = real tables (C03). The T leg is exploration over a derived space.',
+    technique='symbolic execution of the real lexer wrapper on symbolic token kinds (relational: with/without layout) + table-driven replay',
+    engine='SX+GX'),
+ 'C13': dict(
+    level=('other', 'S: relational SX check on the real Lexer wrapper: the stream of real tokens (kinds, AUTOSEMI, DIV/REGEX faces) with comment items inserted at <= 2 gaps of <= 2/3 tokens of symbolic kind equals the stream without them, capture off and on, no comment handed over twice. '
+                    'T: structures x every gap x 7 comment spellings: tree equality with/without capture and vs the comment-free text; attached comments verbatim, located, ordered, unique; pretty-print/re-parse keeps tree and comment sequence; no line terminator between a restricted keyword and its operand.', 'DESIGN.md C13'),
+    note='Trusted: a single-line comment is white space, a comment with a terminator acts as that terminator (7.4). One comment per text in T. The T leg is exploration.',
+    technique='symbolic execution of the real lexer wrapper on symbolic token kinds (relational: with/without comments) + replay of comment placements',
+    engine='SX+GX'),
  'C08': dict(
     level=('other', 'Inductive per production: the node every real p_* action builds from SYMBOLIC slot positions (z3 Ints, symbolic newline index) is printed by the real pretty, minify and obfuscating printers; for every fragment with an explicit position z3 decides - for all layouts at once - that it is the position of a token of the production spelled like the fragment (or like the recorded original name). '
                     'Backed by a replay leg over corpus x 6 layouts (LF, CR, CRLF, U+2028/9, multi-line tokens) x 3 printers x comments on/off with two files chained, judged against the source text.', 'DESIGN.md C08'),
